@@ -32,9 +32,14 @@ class FusionEngineEncoder:
         header.message_version = message.get_version()
         header.sequence_number = self.sequence_number
         header.source_identifier = source_identifier
+
+        message_data = message.pack()
+        result = header.pack(payload=message_data)
+
+        # Consume the sequence number only once the message has actually been serialized: if `message.pack()` or the
+        # header serialization raises, nothing was produced and the next message must not show a gap.
+        #
         # The sequence number is a 32-bit header field: roll over instead of growing past what the header can hold.
         self.sequence_number = (self.sequence_number + 1) % 2**32
 
-        message_data = message.pack()
-
-        return header.pack(payload=message_data)
+        return result
